@@ -2,7 +2,7 @@
 From Coq Require Import List Bool Arith ZArith Lia Permutation FinFun.
 From SR Require Import Model.Toposort.
 Import ListNotations.
-Open Scope Z_scope.
+Local Open Scope Z_scope.
 
 (* ------------------------------------------------------------------ *)
 (** * Specification *)
@@ -819,7 +819,8 @@ Section Concrete.
             split; [|constructor]. intros r. split; [intros [] | intros [v [r' [[] _]]]].
           - apply NoDup_cons_iff in Hndt as [Hvt Hndt'].
             assert (In v starts) as Hv by (apply Hsub; left; reflexivity).
-            assert (Inv P m0 starts) as HI0 by (repeat split; auto; apply Hst).
+            assert (Inv P m0 starts) as HI0
+              by exact (conj HP (conj Hincl (conj Hpc (conj Hr0 (conj Hst Hnds))))).
             pose proof (Inv_avail P m0 _ v HI0 Hv) as Hav.
             destruct (key_lookup v (proj1 Hav)) as [ss Hl].
             destruct (remove_first_spec v starts Hnds Hv) as [ns0 [Erem [Hnd0 Hns0]]].
@@ -867,3 +868,396 @@ Section Concrete.
                   split; [|rewrite rev_involutive; exact Hm].
                   rewrite <- (rev_involutive r), Er. reflexivity.
     Qed.
+
+    Lemma toposort_all_run : exists R,
+      (forall r, In r R <-> maximal g [] (rev r)) /\ NoDup R /\
+      toposort_all_with ord g =
+        TOk (if forallb (fun sub => (length sub =? length g)%nat) R then map (@rev node) R else []).
+    Proof.
+      destruct (Inv_init all_init_step (all_init_step_ok _)) as [starts [m [E HI]]].
+      destruct (bt_spec (length g) [] m starts HI) as [R [m' [Ebt [_ [HR HndR]]]]].
+      { simpl. symmetry. apply length_keys. }
+      exists R. split; [exact HR|]. split; [exact HndR|].
+      unfold toposort_all_with. rewrite E. cbn [tbind]. rewrite Ebt. reflexivity.
+    Qed.
+
+    Theorem toposort_all_total : exists R, toposort_all_with ord g = TOk R.
+    Proof. destruct toposort_all_run as [R [_ [_ ->]]]. eauto. Qed.
+
+    Theorem toposort_all_complete_sound R : toposort_all_with ord g = TOk R ->
+      forall l, In l R <-> topo g l.
+    Proof.
+      destruct toposort_all_run as [R0 [HR [_ ->]]]. intros [= <-] l. split.
+      - destruct (forallb _ R0) eqn:F; [|intros []].
+        rewrite in_map_iff. intros [r [<- Hr]].
+        rewrite forallb_forall in F. specialize (F r Hr). apply Nat.eqb_eq in F.
+        apply HR in Hr. apply greedy_topo; auto; [apply Hr|].
+        rewrite rev_length, length_keys. exact F.
+      - intros Ht.
+        assert (forallb (fun sub => (length sub =? length g)%nat) R0 = true) as ->.
+        { apply forallb_forall. intros r Hr. apply Nat.eqb_eq. apply HR in Hr.
+          rewrite <- length_keys, <- (rev_length r). eapply maximal_length; eauto. }
+        apply in_map_iff. exists (rev l). split; [apply rev_involutive|].
+        apply HR. rewrite rev_involutive. apply topo_maximal; auto.
+    Qed.
+
+    Theorem toposort_all_nodup R : toposort_all_with ord g = TOk R -> NoDup R.
+    Proof.
+      destruct toposort_all_run as [R0 [_ [Hnd0 ->]]]. intros [= <-].
+      destruct (forallb _ R0); [|constructor].
+      apply Injective_map_NoDup; auto. intros a b E.
+      rewrite <- (rev_involutive a), E. apply rev_involutive.
+    Qed.
+
+    Corollary toposort_all_cyclic_nil : (forall l, ~ topo g l) -> toposort_all_with ord g = TOk [].
+    Proof.
+      intros Hno. destruct toposort_all_total as [R E]. rewrite E.
+      destruct R as [|l R]; [reflexivity|]. exfalso. apply (Hno l).
+      apply (toposort_all_complete_sound _ E). left; reflexivity.
+    Qed.
+  End Bt.
+End Concrete.
+
+Lemma set_order_id : set_order (fun s => s).
+Proof. intros s. apply Permutation_refl. Qed.
+
+(* ------------------------------------------------------------------ *)
+(** * A boolean test for well-formedness *)
+
+Fixpoint nodupb (l : list node) : bool :=
+  match l with
+  | [] => true
+  | x :: l' => negb (memb x l') && nodupb l'
+  end.
+
+Definition wfb (g : graph) : bool :=
+  nodupb (keys g) && forallb (fun p => forallb (fun v => memb v (keys g)) (snd p)) g.
+
+Lemma nodupb_NoDup l : nodupb l = true -> NoDup l.
+Proof.
+  induction l as [|x l IH]; simpl; intros H; [constructor|].
+  apply andb_true_iff in H as [H1 H2]. apply negb_true_iff, memb_false in H1.
+  constructor; auto.
+Qed.
+
+Lemma wfb_wf g : wfb g = true -> wf g.
+Proof.
+  unfold wfb. rewrite andb_true_iff, forallb_forall. intros [H1 H2]. split.
+  - apply nodupb_NoDup. exact H1.
+  - intros u v [ss [Hin Hv]]. specialize (H2 _ Hin). simpl in H2.
+    rewrite forallb_forall in H2. apply memb_In. apply H2. exact Hv.
+Qed.
+
+(* ------------------------------------------------------------------ *)
+(** * The precedence graph of leaf syntenies and its orderings *)
+
+From SR Require Proofs.SubseqProofs.
+Notation Subseq := SubseqProofs.Subseq.
+
+(* [u] is immediately followed by [v] in [s] *)
+Definition adjacent (s : list node) (u v : node) : Prop := exists a b, s = a ++ u :: v :: b.
+
+(* [x] is a gene family of some leaf synteny *)
+Definition family (leaves : list (list node)) (x : node) : Prop :=
+  exists s, In s leaves /\ In x s.
+
+Lemma adjacent_single x u v : ~ adjacent [x] u v.
+Proof. intros [a [b E]]. destruct a as [|? [|? ?]]; discriminate. Qed.
+
+Lemma adjacent_cons x y s u v :
+  adjacent (x :: y :: s) u v <-> (u = x /\ v = y) \/ adjacent (y :: s) u v.
+Proof.
+  split.
+  - intros [a [b E]]. destruct a as [|a0 a]; simpl in E.
+    + inversion E; subst. left; auto.
+    + inversion E; subst. right. exists a, b. assumption.
+  - intros [[-> ->] | [a [b E]]].
+    + exists [], s. reflexivity.
+    + exists (x :: a), b. simpl. rewrite E. reflexivity.
+Qed.
+
+Lemma edge_app g1 g2 u v : edge (g1 ++ g2) u v <-> edge g1 u v \/ edge g2 u v.
+Proof.
+  unfold edge. split.
+  - intros [ss [Hin Hv]]. apply in_app_iff in Hin as [H | H]; [left | right]; eauto.
+  - intros [[ss [Hin Hv]] | [ss [Hin Hv]]]; exists ss; rewrite in_app_iff; auto.
+Qed.
+
+Lemma lookup_none_keys {A} (m : list (node * A)) k : lookup m k = None -> ~ In k (map fst m).
+Proof.
+  intros Hl Hin. apply lookup_key in Hin as [a Ha]. congruence.
+Qed.
+
+Lemma ensure_key_spec prec k : NoDup (keys prec) ->
+  NoDup (keys (ensure_key prec k)) /\
+  (forall x, In x (keys (ensure_key prec k)) <-> x = k \/ In x (keys prec)) /\
+  (forall u v, edge (ensure_key prec k) u v <-> edge prec u v).
+Proof.
+  intros Hnd. unfold ensure_key. destruct (lookup prec k) as [ss|] eqn:Hl.
+  - split; [exact Hnd|]. split; [|tauto].
+    intros x. split; [auto|]. intros [-> | H]; [|exact H].
+    apply lookup_In in Hl. change k with (fst (k, ss)). apply in_map. exact Hl.
+  - apply lookup_none_keys in Hl. unfold keys in *. rewrite map_app. simpl. split; [|split].
+    + apply NoDup_app_intro; auto.
+      * constructor; [intros [] | constructor].
+      * intros x Hx [<- | []]. contradiction.
+    + intros x. rewrite in_app_iff. simpl. intuition.
+    + intros u v. rewrite edge_app. split; [|auto].
+      intros [H | [ss [[E | []] Hv]]]; [exact H|]. inversion E; subst. destruct Hv.
+Qed.
+
+Lemma add_succ_spec k v : forall prec, In k (keys prec) ->
+  keys (add_succ prec k v) = keys prec /\
+  (forall u w, edge (add_succ prec k v) u w <-> edge prec u w \/ (u = k /\ w = v)).
+Proof.
+  induction prec as [|[k' ss] prec IH]; intros Hk; [destruct Hk|]. simpl.
+  destruct (Nat.eqb k k') eqn:E.
+  - apply Nat.eqb_eq in E. subst k'. split; [reflexivity|].
+    intros u w. rewrite !edge_cons, set_add_In. intuition.
+  - apply Nat.eqb_neq in E. destruct Hk as [Hk | Hk]; [simpl in Hk; congruence|].
+    destruct (IH Hk) as [IH1 IH2]. split; [simpl; f_equal; exact IH1|].
+    intros u w. rewrite !edge_cons, IH2. tauto.
+Qed.
+
+Lemma prec_leaf_spec : forall s prec, s <> [] -> NoDup (keys prec) ->
+  exists prec', prec_leaf prec s = TOk prec' /\ NoDup (keys prec') /\
+    (forall x, In x (keys prec') <-> In x (keys prec) \/ In x s) /\
+    (forall u v, edge prec' u v <-> edge prec u v \/ adjacent s u v).
+Proof.
+  induction s as [|x s IH]; intros prec Hne Hnd; [congruence|].
+  destruct s as [|y s].
+  - destruct (ensure_key_spec prec x Hnd) as [H1 [H2 H3]].
+    exists (ensure_key prec x). split; [reflexivity|]. split; [exact H1|]. split.
+    + intros z. rewrite H2. simpl. intuition.
+    + intros u v. rewrite H3. split; [auto|]. intros [H | H]; [exact H|].
+      exfalso. eapply adjacent_single; eauto.
+  - destruct (ensure_key_spec prec x Hnd) as [H1 [H2 H3]].
+    destruct (add_succ_spec x y (ensure_key prec x)) as [H4 H5].
+    { apply H2. left; reflexivity. }
+    destruct (IH (add_succ (ensure_key prec x) x y)) as [prec' [E [N1 [K1 E1]]]].
+    + discriminate.
+    + rewrite H4. exact H1.
+    + exists prec'. split; [exact E|]. split; [exact N1|]. split.
+      * intros z. rewrite K1, H4, H2. simpl. intuition.
+      * intros u v. rewrite E1, H5, H3, adjacent_cons. tauto.
+Qed.
+
+Lemma prec_fold_spec : forall leaves prec g, NoDup (keys prec) ->
+  fold_res prec_leaf leaves prec = TOk g ->
+  NoDup (keys g) /\
+  (forall x, In x (keys g) <-> In x (keys prec) \/ family leaves x) /\
+  (forall u v, edge g u v <-> edge prec u v \/ exists s, In s leaves /\ adjacent s u v).
+Proof.
+  induction leaves as [|s leaves IH]; intros prec g Hnd E.
+  - simpl in E. inversion E; subst. split; [exact Hnd|]. split.
+    + intros x. split; [auto|]. intros [H | [s [[] _]]]; exact H.
+    + intros u v. split; [auto|]. intros [H | [s [[] _]]]; exact H.
+  - cbn [fold_res] in E. destruct s as [|x s]; [discriminate|].
+    destruct (prec_leaf_spec (x :: s) prec) as [prec' [E' [N1 [K1 E1]]]]; [discriminate | exact Hnd|].
+    rewrite E' in E. cbn [tbind] in E.
+    destruct (IH prec' g N1 E) as [N2 [K2 E2]]. split; [exact N2|]. split.
+    + intros z. rewrite K2, K1. unfold family. split.
+      * intros [[H | H] | [s' [H1 H2]]]; [left; exact H | right | right].
+        -- exists (x :: s). split; [left; reflexivity | exact H].
+        -- exists s'. split; [right; exact H1 | exact H2].
+      * intros [H | [s' [[<- | H1] H2]]]; [left; left; exact H | left; right; exact H2 | right].
+        exists s'. auto.
+    + intros u v. rewrite E2, E1. split.
+      * intros [[H | H] | [s' [H1 H2]]]; [left; exact H | right | right].
+        -- exists (x :: s). split; [left; reflexivity | exact H].
+        -- exists s'. split; [right; exact H1 | exact H2].
+      * intros [H | [s' [[<- | H1] H2]]]; [left; left; exact H | left; right; exact H2 | right].
+        exists s'. auto.
+Qed.
+
+Lemma make_prec_graph_total leaves : (forall s, In s leaves -> s <> []) ->
+  exists g, make_prec_graph leaves = TOk g.
+Proof.
+  unfold make_prec_graph. assert (NoDup (keys [])) as H0 by constructor. revert H0.
+  generalize (@nil (node * list node)) as prec.
+  induction leaves as [|s leaves IH]; intros prec Hnd Hne.
+  - exists prec. reflexivity.
+  - destruct (prec_leaf_spec s prec) as [prec' [E' [N1 _]]]; [apply Hne; left; reflexivity | exact Hnd|].
+    cbn [fold_res]. rewrite E'. cbn [tbind]. apply IH; [exact N1|].
+    intros s' Hs'. apply Hne. right; exact Hs'.
+Qed.
+
+(* sub-sequences and [before] *)
+Lemma Subseq_app_skip (a c p : list node) : Subseq c p -> Subseq c (a ++ p).
+Proof. intros H. induction a as [|x a IH]; simpl; [exact H | apply SubseqProofs.sub_skip; exact IH]. Qed.
+
+Lemma Subseq_drop (a c p : list node) : Subseq (a ++ c) p -> Subseq c p.
+Proof.
+  induction a as [|x a IH]; simpl; intros H; [exact H|].
+  apply IH. eapply SubseqProofs.Subseq_tail; eauto.
+Qed.
+
+Lemma Subseq_strip (y : node) c : forall a p, Subseq (y :: c) (a ++ p) -> ~ In y a -> Subseq (y :: c) p.
+Proof.
+  induction a as [|z a IH]; simpl; intros p H Hn; [exact H|].
+  inversion H as [| ? ? ? H' | ? ? ? H']; subst.
+  - exfalso. apply Hn. left; reflexivity.
+  - apply IH; [exact H' | tauto].
+Qed.
+
+Lemma Subseq_before u v b : forall l, Subseq (u :: v :: b) l -> before l u v.
+Proof.
+  induction l as [|z l IH]; intros H; inversion H as [| ? ? ? H' | ? ? ? H']; subst.
+  - assert (In v l) as Hv by (eapply SubseqProofs.Subseq_in; [exact H' | left; reflexivity]).
+    apply in_split in Hv as [l2 [l3 ->]]. exists [], l2, l3. reflexivity.
+  - destruct (IH H') as [l1 [l2 [l3 ->]]]. exists (z :: l1), l2, l3. reflexivity.
+Qed.
+
+Lemma chain_Subseq : forall s l, NoDup l -> (forall x, In x s -> In x l) ->
+  (forall u v, adjacent s u v -> before l u v) -> Subseq s l.
+Proof.
+  induction s as [|x s IH]; intros l Hnd Hin Hadj; [constructor|].
+  destruct s as [|y s].
+  - assert (In x l) as Hx by (apply Hin; left; reflexivity).
+    apply in_split in Hx as [l1 [l2 ->]]. apply Subseq_app_skip.
+    apply SubseqProofs.sub_take. constructor.
+  - assert (Subseq (y :: s) l) as Hys.
+    { apply IH; auto.
+      - intros z Hz. apply Hin. right; exact Hz.
+      - intros u v Huv. apply Hadj. apply adjacent_cons. right; exact Huv. }
+    destruct (Hadj x y) as [l1 [l2 [l3 ->]]]; [apply adjacent_cons; left; auto|].
+    apply Subseq_app_skip. apply SubseqProofs.sub_take.
+    replace (l1 ++ x :: l2 ++ y :: l3) with ((l1 ++ [x]) ++ l2 ++ y :: l3) in Hys, Hnd
+      by (rewrite <- app_assoc; reflexivity).
+    apply (Subseq_strip y s (l1 ++ [x])); [exact Hys|].
+    intros Hy. rewrite app_assoc in Hnd. apply NoDup_remove_2 in Hnd.
+    apply Hnd. rewrite !in_app_iff. left; left. rewrite in_app_iff in Hy. exact Hy.
+Qed.
+
+(* link lemma for C02: the orderings of the precedence graph are exactly the
+   arrangements of the family set of which every leaf synteny is a sub-sequence *)
+Theorem root_orders leaves g : make_prec_graph leaves = TOk g ->
+  wf g /\
+  forall l, topo g l <->
+    NoDup l /\ (forall x, In x l <-> family leaves x) /\ (forall s, In s leaves -> Subseq s l).
+Proof.
+  intros E. destruct (prec_fold_spec leaves [] g (NoDup_nil _) E) as [N [K Ed]].
+  assert (forall x, In x (keys g) <-> family leaves x) as K'.
+  { intros x. rewrite K. simpl. tauto. }
+  assert (forall u v, edge g u v <-> exists s, In s leaves /\ adjacent s u v) as Ed'.
+  { intros u v. rewrite Ed. split; [|auto]. intros [[ss [[] _]] | H]; exact H. }
+  split.
+  - split; [exact N|]. intros u v He. apply Ed' in He as [s [Hs [a [b ->]]]].
+    apply K'. exists (a ++ u :: v :: b). split; [exact Hs|].
+    rewrite in_app_iff. right; right; left; reflexivity.
+  - intros l. split.
+    + intros [Hp He].
+      assert (NoDup l) as Hl by (apply (Permutation_NoDup (Permutation_sym Hp)); exact N).
+      split; [exact Hl|]. split.
+      * intros x. rewrite <- K'. split; apply Permutation_in; [exact Hp | apply Permutation_sym; exact Hp].
+      * intros s Hs. apply chain_Subseq; auto.
+        -- intros x Hx. apply (Permutation_in _ (Permutation_sym Hp)). apply K'. exists s. auto.
+        -- intros u v Huv. apply He. apply Ed'. exists s. auto.
+    + intros [Hl [Hfam Hsub]]. split.
+      * apply NoDup_Permutation; auto. intros x. rewrite Hfam, K'. tauto.
+      * intros u v He. apply Ed' in He as [s [Hs [a [b ->]]]].
+        apply (Subseq_before u v b). apply (Subseq_drop a). apply Hsub. exact Hs.
+Qed.
+
+(* ------------------------------------------------------------------ *)
+(** * A successor that is not a key raises [KeyError] in both routines *)
+
+Lemma fold_res_app {A S} (f : S -> A -> tres S) (a b : list A) (s : S) :
+  fold_res f (a ++ b) s = tbind (fold_res f a s) (fold_res f b).
+Proof.
+  revert s. induction a as [|x a IH]; intros s; simpl; [reflexivity|].
+  destruct (f s x); simpl; auto.
+Qed.
+
+Lemma update_keys m k d : map fst (update m k d) = map fst m.
+Proof.
+  induction m as [|[k' a] m IH]; simpl; [reflexivity|].
+  destruct (Nat.eqb k k'); simpl; [reflexivity | rewrite IH; reflexivity].
+Qed.
+
+Lemma lookup_not_key {A} (m : list (node * A)) k : ~ In k (map fst m) -> lookup m k = None.
+Proof.
+  induction m as [|[k' a] m IH]; simpl; intros H; [reflexivity|].
+  destruct (Nat.eqb k k') eqn:E.
+  - apply Nat.eqb_eq in E. subst. exfalso. apply H. left; reflexivity.
+  - apply IH. tauto.
+Qed.
+
+Lemma first_bad (K : list node) : forall L, (exists x, In x L /\ ~ In x K) ->
+  exists pre s post, L = pre ++ s :: post /\ incl pre K /\ ~ In s K.
+Proof.
+  induction L as [|y L IH]; intros [x [Hx Hn]]; [destruct Hx|].
+  destruct (in_dec Nat.eq_dec y K) as [Hy | Hy].
+  - destruct IH as [pre [s [post [-> [Hp Hs]]]]].
+    + destruct Hx as [<- | Hx]; [contradiction | eauto].
+    + exists (y :: pre), s, post. split; [reflexivity|]. split; [|exact Hs].
+      intros z [<- | Hz]; auto.
+  - exists [], y, L. split; [reflexivity|]. split; [intros z []|exact Hy].
+Qed.
+
+Definition keeps_keys (step : list node * imap -> node -> tres (list node * imap)) : Prop :=
+  (forall st m s st' m', step (st, m) s = TOk (st', m') -> map fst m' = map fst m) /\
+  (forall st m s, lookup m s = None -> step (st, m) s = TKeyError).
+
+Lemma kahn_init_keeps : keeps_keys kahn_init_step.
+Proof.
+  split.
+  - intros st m s st' m'. unfold kahn_init_step. destruct (lookup m s) as [d|]; [|discriminate].
+    destruct (if (d =? 0)%Z then remove_first s st else Some st); [|discriminate].
+    intros [= <- <-]. apply update_keys.
+  - intros st m s H. unfold kahn_init_step. rewrite H. reflexivity.
+Qed.
+
+Lemma all_init_keeps : keeps_keys all_init_step.
+Proof.
+  split.
+  - intros st m s st' m'. unfold all_init_step. destruct (lookup m s) as [d|]; [|discriminate].
+    intros [= <- <-]. apply update_keys.
+  - intros st m s H. unfold all_init_step. rewrite H. reflexivity.
+Qed.
+
+Lemma fold_keeps step : keeps_keys step -> forall L st m st' m',
+  fold_res step L (st, m) = TOk (st', m') -> map fst m' = map fst m.
+Proof.
+  intros [Hk _]. induction L as [|s L IH]; intros st m st' m' E; simpl in E.
+  - inversion E; reflexivity.
+  - destruct (step (st, m) s) as [[st1 m1]| | | |] eqn:E1; try discriminate.
+    simpl in E. rewrite (IH _ _ _ _ E). eapply Hk; eauto.
+Qed.
+
+Lemma init_keyerror g step : NoDup (keys g) -> init_step_ok (keys g) step -> keeps_keys step ->
+  (exists u v, edge g u v /\ ~ In v (keys g)) ->
+  fold_res step (all_succs g) (keys g, zero_map g) = TKeyError.
+Proof.
+  intros Hnd Hok Hkeep [u [v [[ss [Hin Hv]] Hn]]].
+  destruct (first_bad (keys g) (all_succs g)) as [pre [s [post [E [Hpre Hs]]]]].
+  { exists v. split; [|exact Hn]. unfold all_succs. apply in_concat. exists ss. split; [|exact Hv].
+    change ss with (snd (u, ss)). apply in_map. exact Hin. }
+  rewrite E, fold_res_app.
+  destruct (init_spec (keys g) step Hok pre (keys g) (zero_map g) (fun _ => 0%Z))
+    as [st' [m' [E' _]]].
+  - apply repr_zero.
+  - exact Hpre.
+  - intros _. lia.
+  - intros x. tauto.
+  - exact Hnd.
+  - rewrite E'. cbn [tbind fold_res].
+    pose proof (fold_keeps step Hkeep _ _ _ _ _ E') as Hk.
+    destruct Hkeep as [_ Herr]. rewrite Herr; [reflexivity|].
+    apply lookup_not_key. rewrite Hk. unfold zero_map. rewrite map_map. simpl.
+    rewrite map_id. exact Hs.
+Qed.
+
+Theorem toposort_keyerror g : NoDup (keys g) ->
+  (exists u v, edge g u v /\ ~ In v (keys g)) -> toposort g = TKeyError.
+Proof.
+  intros Hnd Hbad. unfold toposort.
+  rewrite (init_keyerror g _ Hnd (kahn_init_step_ok _) kahn_init_keeps Hbad). reflexivity.
+Qed.
+
+Theorem toposort_all_keyerror ord g : NoDup (keys g) ->
+  (exists u v, edge g u v /\ ~ In v (keys g)) -> toposort_all_with ord g = TKeyError.
+Proof.
+  intros Hnd Hbad. unfold toposort_all_with.
+  rewrite (init_keyerror g _ Hnd (all_init_step_ok _) all_init_keeps Hbad). reflexivity.
+Qed.
